@@ -206,7 +206,7 @@ def culprit(a, b, pred) -> str:
 # --------------------------------------------------------------------------
 
 def run_children(ctx, seed: int, n: int, pickles: dict[int, bytes], hash_seeds: list[int],
-                 with_loopy=True, tag="x") -> list[dict]:
+                 with_loopy=True, tag="x", families=(), pickle_families=()) -> list[dict]:
     """run harness.eqchild in one interpreter per hash seed (in parallel); each
     rebuilds graphs 0..n-1 from the recipe, unpickles the parent's pickles and
     reports; returns [{hash_seed, results: [...], pickles: {i: bytes}}]"""
@@ -218,7 +218,8 @@ def run_children(ctx, seed: int, n: int, pickles: dict[int, bytes], hash_seeds: 
     for hsd in hash_seeds:
         job = {"seed": seed, "n": n, "with_loopy": with_loopy, "pickles_in": str(pin),
                "pickles_out": str(sc / f"eq_{tag}_child{hsd}.pkl"),
-               "result": str(sc / f"eq_{tag}_child{hsd}.json")}
+               "result": str(sc / f"eq_{tag}_child{hsd}.json"),
+               "families": list(families), "pickle_families": list(pickle_families), "tier": ctx.tier}
         jf = sc / f"eq_{tag}_job{hsd}.json"
         jf.write_text(json.dumps(job))
         env = dict(os.environ)
@@ -241,8 +242,28 @@ def run_children(ctx, seed: int, n: int, pickles: dict[int, bytes], hash_seeds: 
         res = json.loads(open(job["result"]).read())
         with open(job["pickles_out"], "rb") as f:
             pk = pickle.load(f)
-        out.append({"hash_seed": hsd, "results": res, "pickles": pk})
+        ent = {"hash_seed": hsd, "results": res, "pickles": pk, "families": {}, "family_pickles": {}}
+        if families:
+            ent["families"] = json.loads(open(job["result"] + ".families").read())
+            with open(job["pickles_out"] + ".families", "rb") as f:
+                ent["family_pickles"] = pickle.load(f)
+        out.append(ent)
     return out
+
+
+def family_rows(name: str, tier: str, keyb=None):
+    """this process' view of a family: {label: {key, struct, g1, g2}}"""
+    import hashlib
+
+    from .gen import eqfamilies
+    rows = {}
+    for lbl, g1, g2 in eqfamilies.build(name, tier):
+        hs = eqterm.HeapSer(check_reflect=False)
+        hs.add(g1)
+        rows[lbl] = {"g1": g1, "g2": g2, "struct": hashlib.sha1(hs.wire().encode()).hexdigest()[:16]}
+        if keyb is not None:
+            rows[lbl]["key"] = keyb(g1)
+    return rows
 
 
 def hash_cache_kinds(root) -> list[str]:
